@@ -64,6 +64,10 @@ func funcs(files map[string]*ast.File) map[string]*ast.FuncDecl {
 		for _, d := range f.Decls {
 			if fd, ok := d.(*ast.FuncDecl); ok {
 				pkgOfFunc[fd] = f.Name.Name
+				if fnsByPkg[f.Name.Name] == nil {
+					fnsByPkg[f.Name.Name] = map[string]*ast.FuncDecl{}
+				}
+				fnsByPkg[f.Name.Name][fd.Name.Name] = fd
 				// a package-level function wins over a method of the same name
 				if old, exists := res[fd.Name.Name]; exists && old.Recv == nil && fd.Recv != nil {
 					continue
